@@ -168,6 +168,15 @@ CHECKS = {
         "technique": "Lean 4 proof (bit-level case reduction + kernel-decided finite table) + exhaustive differential run",
         "design_ref": "DESIGN.md §8 C18",
     },
+    "C19": {
+        "text": "Decision logic as theorems: an unknown type, an unknown command name or --type Response without --command is refused (c19_refuse, c19_refuse_response), the default "
+                "is the stream (c19_default), `type` lists a structure type IFF strict decoding of the bytes under it completes (c19_type) and then every byte was consumed by emitted "
+                "fields (c19_type_exact, from C02). The glue (argparse, files, print, difflib, colorama) is NOT modelled: the check runs the real command line as a subprocess over input "
+                "formats x output formats x type/command choices (well-formed and corrupted files) and compares stdout (colour stripped), status and stderr class with the library "
+                "in-process, --out binary with the decoded bytes, `type` with strict library decodes under every type/command code and the Lean listing, `example X` with the stated rule.",
+        "technique": "Lean 4 proofs of the dispatch/listing logic + subprocess-vs-library differential run (glue tied by correspondence only)",
+        "design_ref": "DESIGN.md §8 C19",
+    },
     "C20": {
         "text": "Every clause is a theorem over the whole regenerated table, decided by the kernel (decide +kernel / rfl, no axioms beyond the standard "
                 "three): one map entry per command code named after it, handle areas <= 3 four-byte primitives, counted lists follow unsigned counts, "
